@@ -873,6 +873,174 @@ def run_pg(ctx, agg, rec):
 
 
 # ----------------------------------------------------------------------------------
+# named shapes with irrational data: numeric predicates on spec-generated cases (spec/GeoFuncNamed.tla)
+
+def ang(a):
+    return a[0] / a[1] * (math.pi if a[2] else 1.0)
+
+
+def unwrapped_angles(P):
+    th = np.arctan2(P[..., 1], P[..., 0])
+    th = np.where(th < -1e-13, th + 2 * np.pi, th)
+    return np.unwrap(th)
+
+
+def check_arc(bt, G, r, alpha, ts, route):
+    P = bt.guarded(route + ' grid_eval', lambda: np.asarray(G.grid_eval([ts]), dtype=float))
+    if P is None:
+        return
+    if P.shape != (len(ts), 2):
+        bt.viol(route, 'wrong shape', got=list(P.shape))
+        return
+    rad = np.hypot(P[:, 0], P[:, 1])
+    if (np.abs(rad - r) > 1e-12 * max(1.0, r)).any():
+        bt.viol(route, 'radius predicate |G(t)| = r fails', r=r, alpha=alpha, err=float(np.abs(rad - r).max()))
+    th = unwrapped_angles(P)
+    tol = 1e-11 * max(1.0, alpha)
+    if abs(th[0]) > tol or abs(th[-1] - alpha) > tol or (np.diff(th) <= 0).any():
+        bt.viol(route, 'angle range predicate fails (angle must increase from 0 to alpha)', r=r, alpha=alpha,
+                first=float(th[0]), last=float(th[-1]), monotone=bool((np.diff(th) > 0).all()))
+    # parametrisation symmetric: t -> 1 - t mirrors the arc at the bisector
+    X = np.asarray(G(0.5), dtype=float)
+    E = r * np.array([math.cos(alpha / 2), math.sin(alpha / 2)])
+    if (np.abs(X - E) > 1e-12 * max(1.0, r)).any():
+        bt.viol(route, 'mid point is not at half the opening angle', r=r, alpha=alpha, got=X.tolist(), expected=E.tolist())
+
+
+def run_named(ctx, agg, rec):
+    from pyiga import geometry
+    shape = rec['shape']
+    info = dict(fam='named', case=rec['id'], shape=shape)
+    bt = Battery(ctx, agg, shape, info)
+    ctx.case(('named', rec['id']), nontrivial=True,
+             sample={k: v for k, v in rec.items() if k in ('shape', 'alpha', 'r', 'r2', 'phi', 'preds')} if rec['id'] % 41 == 7 else None)
+    ts = np.array([fr(t) for t in rec['ts']]) if 'ts' in rec else None
+    if shape == 'circular_arc':
+        alpha, r = ang(rec['alpha']), fr(rec['r'])
+        if not (0.0 < alpha <= 2 * math.pi):
+            try:
+                geometry.circular_arc(alpha, r)
+                bt.viol('circular_arc', 'invalid opening angle accepted', alpha=alpha)
+            except ValueError:
+                pass
+            except Exception as ex:
+                bt.viol('circular_arc', 'exception %s for an invalid opening angle (documented: ValueError)' % type(ex).__name__)
+            return
+        G = bt.guarded('circular_arc', lambda: geometry.circular_arc(alpha, r))
+        if G is not None:
+            check_arc(bt, G, r, alpha, ts, 'circular_arc')
+        for name, f, ok in (('circular_arc_3pt', geometry.circular_arc_3pt, alpha < math.pi),
+                            ('circular_arc_5pt', geometry.circular_arc_5pt, alpha < 2 * math.pi),
+                            ('circular_arc_7pt', geometry.circular_arc_7pt, True)):
+            if ok:
+                G = bt.guarded(name, lambda: f(alpha, r))
+                if G is not None:
+                    check_arc(bt, G, r, alpha, ts, name)
+        return
+    if shape in ('circle', 'semicircle'):
+        r = fr(rec['r'])
+        f = getattr(geometry, shape)
+        G = bt.guarded(shape, lambda: f(r) if r != 1.0 else f())
+        if G is not None:
+            check_arc(bt, G, r, 2 * math.pi if shape == 'circle' else math.pi, ts, shape)
+        return
+    if shape == 'quarter_annulus':
+        r1, r2 = fr(rec['r']), fr(rec['r2'])
+        G = bt.guarded(shape, lambda: geometry.quarter_annulus(r1, r2))
+        if G is None:
+            return
+        P = bt.guarded('quarter_annulus grid_eval', lambda: np.asarray(G.grid_eval([ts, ts]), dtype=float))     # [y, x, :]
+        if P is None:
+            return
+        rad = np.hypot(P[..., 0], P[..., 1])
+        E = r1 + ts[None, :] * (r2 - r1)
+        if (np.abs(rad - E) > 1e-12 * r2).any():
+            bt.viol(shape, 'annulus predicate |G(x,y)| = r1 + x (r2 - r1) fails', r1=r1, r2=r2, err=float(np.abs(rad - E).max()))
+        th = np.arctan2(P[..., 1], P[..., 0])
+        if (np.abs(th - th[:, :1]) > 1e-12).any():
+            bt.viol(shape, 'polar angle depends on the radial parameter', r1=r1, r2=r2)
+        if abs(th[0, 0]) > 1e-12 or abs(th[-1, 0] - math.pi / 2) > 1e-12 or (np.diff(th[:, 0]) <= 0).any():
+            bt.viol(shape, 'angle range predicate fails (0 .. pi/2)', r1=r1, r2=r2)
+        return
+    if shape == 'disk':
+        r = fr(rec['r'])
+        G = bt.guarded(shape, lambda: geometry.disk(r) if r != 1.0 else geometry.disk())
+        if G is None:
+            return
+        P = bt.guarded('disk grid_eval', lambda: np.asarray(G.grid_eval([ts, ts]), dtype=float))
+        if P is None:
+            return
+        rad = np.hypot(P[..., 0], P[..., 1])
+        bd = np.ones(rad.shape, dtype=bool)
+        bd[1:-1, 1:-1] = False
+        if (np.abs(rad[bd] - r) > 1e-12 * max(1.0, r)).any():
+            bt.viol(shape, 'boundary of the disk is not on the circle |G| = r', r=r, err=float(np.abs(rad[bd] - r).max()))
+        if (rad[~bd] >= r).any():
+            bt.viol(shape, 'interior parameter point mapped outside the disk', r=r)
+        c = np.asarray(G(0.5, 0.5), dtype=float)
+        if (np.abs(c) > 1e-12 * max(1.0, r)).any():
+            bt.viol(shape, 'centre of the parameter domain is not mapped to the centre', r=r, got=c.tolist())
+        return
+    if shape == 'bspline_quarter_annulus':
+        r1, r2 = fr(rec['r']), fr(rec['r2'])
+        G = bt.guarded(shape, lambda: geometry.bspline_quarter_annulus(r1, r2))
+        if G is None:
+            return
+        for (x, y), E in (((0, 0), (r1, 0)), ((1, 0), (r2, 0)), ((0, 1), (0, r1)), ((1, 1), (0, r2))):
+            X = bt.guarded('bspline_quarter_annulus __call__', lambda: np.asarray(G(float(x), float(y)), dtype=float))
+            if X is not None and (np.abs(X - np.array(E)) > 1e-13 * r2).any():
+                bt.viol(shape, 'corner predicate fails', corner=[x, y], got=X.tolist(), expected=list(E))
+        return
+    if shape == 'perturbed_square':
+        noise = fr(rec['noise'])
+        np.random.seed(int(ctx.seed) + rec['id'])
+        G = bt.guarded(shape, lambda: geometry.perturbed_square(num_intervals=rec['n'], noise=noise))
+        if G is None:
+            return
+        P = np.asarray(G.grid_eval([ts, ts]), dtype=float)
+        E = np.stack(np.meshgrid(ts, ts, indexing='xy'), axis=-1)           # [y, x, (x, y)]
+        if (np.abs(P - E) > noise * (1 + 1e-12)).any():
+            bt.viol(shape, 'noise predicate |G - id| <= noise fails', err=float(np.abs(P - E).max()), noise=noise)
+        U = geometry.unit_square(rec['n'])
+        if (np.abs(np.asarray(U.grid_eval([ts, ts])) - E) > 1e-14).any():
+            bt.viol(shape, 'unit_square is not the identity afterwards')
+        return
+    if shape == 'rotate_2d':
+        o = rec['obj']
+        phi = ang(rec['phi'])
+        D = len(o['kvs'])
+        sh = sheet_vj(rec, (2,), D)
+        R = np.array([[math.cos(phi), -math.sin(phi)], [math.sin(phi), math.cos(phi)]])
+        bt.tag = 'rotate_2d(%s)' % {'bsp': 'BSplineFunc', 'nurbs': 'NurbsFunc'}[o['kind']]
+        G0 = bt.guarded('construct', lambda: build_obj(o, rec['id']))
+        if G0 is None:
+            return
+        fp = fingerprint(G0)
+        G = bt.guarded('rotate_2d', lambda: G0.rotate_2d(phi))
+        if G is None:
+            return
+        if fingerprint(G0) != fp:
+            bt.viol('immutability', 'rotate_2d alters its operand')
+        if type(G) is not type(G0):
+            bt.viol('class', 'result is a %s' % type(G).__name__)
+        EV = np.einsum('ij,...j->...i', R, sh.V)
+        EJ = np.einsum('ij,...jk->...ik', R, sh.J)
+        X = bt.guarded('grid_eval', lambda: G.grid_eval(sh.grid))
+        if X is not None:
+            bt.cmp('grid_eval', X, EV, sh.scale, D)
+            X = np.asarray(X, dtype=float)
+            if X.shape == sh.V.shape:
+                n0, n1 = np.linalg.norm(sh.V, axis=-1), np.linalg.norm(X, axis=-1)
+                if (np.abs(n0 - n1) > 1e-11 * sh.scale).any():
+                    bt.viol('grid_eval', 'rotation predicate |G\'(t)| = |G(t)| fails', phi=phi)
+        X = bt.guarded('grid_jacobian', lambda: G.grid_jacobian(sh.grid))
+        if X is not None:
+            bt.cmp('grid_jacobian', X, EJ, sh.scale, D)
+        return
+    raise MachineryError('unknown named shape %r' % shape)
+
+
+# ----------------------------------------------------------------------------------
 # the state machine "no operation alters an existing object" (spec/GeoFuncOps.tla)
 
 def ops_cfgs(ctx):
@@ -1016,12 +1184,18 @@ def run(ctx):
                         dict(Thorough=ctx.thorough, NParts=nparts, Part=part, Seed=int(ctx.seed) % 1000), invariants=['CaseOK'])
         return ctx.tlc('GeoFuncComp', cfg, workers=2, timeout=7200)
 
+    def run_named_job():
+        cfg = write_cfg(ctx.scratch / 'named.cfg', dict(Thorough=ctx.thorough, Seed=int(ctx.seed) % 1000), invariants=['CaseOK'])
+        return ctx.tlc('GeoFuncNamed', cfg, workers=2, timeout=7200)
+
     with ThreadPoolExecutor(6) as ex:
+        fut_named = ex.submit(run_named_job)
         fut_comp = [ex.submit(run_comp_job, p) for p in range(2)]
         fut_ops = [ex.submit(run_ops_job, it) for it in ops_cfgs(ctx)]
         results = list(ex.map(run_job, jobs))
         ops_results = [f.result() for f in fut_ops]
         comp_results = [f.result() for f in fut_comp]
+        named_result = fut_named.result()
     n = 0
     for fam, res in results:
         for rec in sorted(res.recs('CASE'), key=lambda r: r['id']):
@@ -1037,6 +1211,11 @@ def run(ctx):
                 m += 1
     if m == 0:
         raise MachineryError('GeoFuncComp emitted nothing')
+    recs = named_result.recs('NAMED')
+    if not recs:
+        raise MachineryError('GeoFuncNamed emitted nothing')
+    for rec in sorted(recs, key=lambda r: r['id']):
+        run_named(ctx, agg, rec)
     ctx.notes['operation_histories_replayed'] = sum(run_ops(ctx, agg, res, name) for name, res in ops_results)
     agg.flush()
     ctx.exhaustive = True
